@@ -1,7 +1,7 @@
 #!/bin/bash
 # seedcheck.sh <patch.diff> <Cxx> [Cyy ...] — apply a seeded change to /repo, run the named quick checks, undo it.
 # Prints one line per check: <id> exit=<code> <first VIOLATION / KNOWN line>
-PATCH=$1; shift
+PATCH=$(readlink -f "$1"); shift
 cd /repo || exit 2
 if ! git apply --check "$PATCH" 2>/dev/null; then
   if ! git apply -3 --check "$PATCH" 2>/dev/null; then echo "PATCH-DOES-NOT-APPLY $PATCH"; exit 3; fi
